@@ -905,7 +905,7 @@ class Rewriter:
                 return self.handle_error()
 
             id_base = re.sub(r'[- ]', '_', cmd['target'])
-            target_id = id_base + '_exe' if cmd['target_type'] == 'executable' else '_lib'
+            target_id = id_base + ('_exe' if cmd['target_type'] == 'executable' else '_lib')
             source_id = id_base + '_sources'
             filename = os.path.join(os.getcwd(), self.interpreter.source_root, cmd['subdir'], environment.build_filename)
 
